@@ -629,8 +629,9 @@ func c13RunOne(seed int64, idx int, perturbed bool) (*c13Run, []map[string]strin
 		}
 	}()
 	wg.Wait()
-	cInW.Close()
-	sOutW.Close()
+	// the pipes are closed only after the verdict and only when every handshake completed: on
+	// EOF wrapInput closes osStdinChan, and a worker that flushes afterwards would panic
+	// (send on closed channel) -- end-of-session behaviour, not what is examined here
 
 	// ---- verdict: poll until everything has been delivered ----
 	cin := bytes.Join(r.cChunks, nil)
